@@ -48,7 +48,7 @@ func (m *mesh) routePath(src, dst string) []string {
 }
 
 type sendObs struct {
-	forwards  int    // traversals of the marked datagram over links between real nodes
+	forwards  int // traversals of the marked datagram over links between real nodes
 	delivered bool
 	notice    *netceptor.UnreachableNotification
 	writeErr  error
